@@ -63,6 +63,7 @@ Section Statements.
   (** With every modelled panic source behind its guard (short-calldata slice, sdk.NewCoin,
       NewIntFromBigInt, collections string keys, the 256-bit overflow of the bank supply under
       MintCoins, the slice-to-array address conversion, the decoding of a called contract's revert data,
+      the Oracle's exchange-rate map keyed by a pair string that passed an unanchored validation,
       the gas meter's out-of-gas panic) no input makes
       the call panic.  PARTIAL: panics inside the keeper-level bodies are outside the model. *)
   Theorem C08_no_panic_partial : forall F p k value gas inp st,
@@ -199,6 +200,15 @@ Theorem C08_no_panic_refuted_with_unguarded_revert_decoder :
              PFunToken k 0 1000000 inp 0) = Panic.
 Proof. exact no_panic_refuted_unguarded_revert_decoder. Qed.
 Print Assumptions C08_no_panic_refuted_with_unguarded_revert_decoder.
+
+(** A pair validation whose per-side pattern is not anchored at the end lets Oracle.queryExchangeRate("unibi:uusd\x00")
+    reach the collections string-key encoder of ExchangeRates.Get, which panics on the NUL character. *)
+Theorem C08_no_panic_refuted_with_unanchored_pair_validation :
+  exists k inp, input_wf inp = true /\
+    r_out (evm_call Z sample_body sample_after_mint sample_transfer (with_pair_validation reference_facts false)
+             POracle k 0 1000000 inp 0) = Panic.
+Proof. exact no_panic_refuted_unanchored_pair_validation. Qed.
+Print Assumptions C08_no_panic_refuted_with_unanchored_pair_validation.
 
 (** The boolean checkers evaluated on implementation traces are sound for [P] / [P_nested]. *)
 Theorem C08_checker_sound : forall k value gas m cls left (se ce : bool),
